@@ -28,9 +28,14 @@ class Body:
         self.ret = ret
         self.blocks = {}
         self.locals = {}
+        self.debug = {}
         cur = None
         for ln in lines:
             s = ln.strip()
+            m = re.match(r"^debug (\w+) => (.+);$", s)
+            if m and cur is None:
+                self.debug.setdefault(m.group(1), m.group(2))
+                continue
             m = re.match(r"^let (?:mut )?(_\d+): (.+);$", s)
             if m:
                 self.locals[m.group(1)] = m.group(2)
@@ -121,7 +126,9 @@ class Smt:
         return n
 
     def script(self, goal):
-        return "\n".join(self.decls + ["(assert %s)" % a for a in self.asserts] + ["(assert %s)" % goal, "(check-sat)", "(get-model)"])
+        ints = sorted(set(re.findall(r"\(declare-const (k_int_\d+) V\)", "\n".join(self.decls))))
+        distinct = ["(assert (distinct %s))" % " ".join(ints)] if len(ints) > 1 else []
+        return "\n".join(self.decls + distinct + ["(assert %s)" % a for a in self.asserts] + ["(assert %s)" % goal, "(check-sat)", "(get-model)"])
 
 
 def mk_deref(t):
@@ -182,6 +189,15 @@ class Exec:
         # field projection  (X.N: T)
         m = re.match(r"^(.+)\.(\d+): .+$", p)
         if m and self._balanced(m.group(1)):
+            b0 = m.group(1).strip()
+            while b0.startswith("(") and b0.endswith(")") and self._balanced(b0[1:-1]):
+                b0 = b0[1:-1].strip()
+            md = re.match(r"^\*(.+)$", b0)
+            if md:
+                refterm = self.place(env, md.group(1))
+                hv = env.get("__heap", {}).get((refterm, m.group(2)))
+                if hv is not None:
+                    return hv
             base = self.place(env, m.group(1))
             return "(%s %s)" % (self.smt.fun("fld_%s" % m.group(2), 1), base)
         m = re.match(r"^(.+) as (\w+)$", p)
@@ -210,6 +226,17 @@ class Exec:
         lhs = lhs.strip()
         if re.match(r"^_\d+$", lhs):
             env[lhs] = val
+            return
+        # write through a reference:  ((*_N).F: T) = val   -> path-local heap cell (ref term, field)
+        mw = re.match(r"^\(\(\*(_\d+)\)\.(\d+): .+\)$", lhs)
+        if mw:
+            refterm = self.place(env, mw.group(1))
+            heap = dict(env.get("__heap", {}))
+            heap[(refterm, mw.group(2))] = val
+            env["__heap"] = heap
+            env.setdefault("__writes", [])
+            env["__writes"] = env["__writes"] + [(refterm, mw.group(2), val)]
+            return
         else:
             # write through a projection: not needed for the read-only glue; keep sound by havocking the base local
             m = re.search(r"_\d+", lhs)
@@ -220,6 +247,13 @@ class Exec:
         rv = rv.strip()
         if re.match(r"^(no_retag )?(copy|move|const) ", rv):
             return self.operand(env, rv)
+        # tuple / array aggregate:  (a, b)   [a, b]   [a; N]
+        if (rv.startswith("(") and rv.endswith(")") and self._balanced(rv[1:-1])) or (rv.startswith("[") and rv.endswith("]")):
+            parts = self.split_args(rv[1:-1].replace(";", ","))
+            if len(parts) > 1 or rv.startswith("["):
+                vals = [self.operand(env, x) for x in parts if x]
+                if vals:
+                    return "(%s %s)" % (self.smt.fun("mk_tuple%d" % len(vals), len(vals)), " ".join(vals))
         m = re.match(r"^&(?:mut |raw const |raw mut )?(.+)$", rv)
         if m:
             inner = m.group(1).strip()
@@ -285,7 +319,17 @@ class Exec:
             env0["_%d" % (i + 1)] = v
         results = []
         self._walk(body, "bb0", env0, [], [], results, 0)
-        return results
+        # drop paths whose branch conditions contradict each other (e.g. two switches on one discriminant)
+        feasible = []
+        for r in results:
+            pc = r[0]
+            if not pc:
+                feasible.append(r)
+                continue
+            v, _ = solve(self.smt.script("(and true %s)" % " ".join(pc)), timeout=20)
+            if v != "unsat":
+                feasible.append(r)
+        return feasible
 
     def _walk(self, body, bb, env, pc, calls, results, depth):
         if len(results) > self.max_paths or depth > 400:
@@ -296,7 +340,7 @@ class Exec:
             self._stmt(env, st)
         term = stmts[-1] if stmts else "return;"
         if term.startswith("return"):
-            results.append((list(pc), env.get("_0", self._konst("unit")), list(calls)))
+            results.append((list(pc), env.get("_0", self._konst("unit")), list(calls), dict(env)))
             return
         m = re.match(r"^goto -> (bb\d+);$", term)
         if m:
@@ -309,10 +353,23 @@ class Exec:
             v = self.operand(env, m.group(1))
             arms = [a.strip() for a in m.group(2).split(",")]
             taken = []
+
+            def lit(c):
+                """'true' / 'false' for syntactically constant conditions, else None"""
+                c = c.strip()
+                if c in ("true", "(not false)"):
+                    return "true"
+                if c in ("false", "(not true)"):
+                    return "false"
+                return None
+
             for a in arms:
                 k, tgt = [x.strip() for x in a.split(":")]
                 if k == "otherwise":
-                    cond = "(and %s)" % " ".join(["(not %s)" % c for c in taken]) if taken else "true"
+                    if any(lit(c) == "true" for c in taken):
+                        continue  # an earlier arm is always taken
+                    rest = [c for c in taken if lit(c) != "false"]
+                    cond = "(and true %s)" % " ".join("(not %s)" % c for c in rest) if rest else "true"
                 else:
                     is_bool = "bool" in body.locals.get(re.sub(r"^(copy|move) ", "", m.group(1)).strip(), "") or v.startswith("(b2v")
                     if is_bool and k in ("0", "1"):
@@ -320,7 +377,9 @@ class Exec:
                     else:
                         cond = "(= %s %s)" % (v, self._konst("int_" + k))
                     taken.append(cond)
-                self._walk(body, tgt, env, pc + [cond], calls, results, depth + 1)
+                    if lit(cond) == "false":
+                        continue
+                self._walk(body, tgt, env, pc + ([cond] if lit(cond) != "true" else []), calls, results, depth + 1)
             return
         m = self._split_call(term)
         if m and m[0] is not None:
